@@ -10,10 +10,10 @@ from envlib import Adapter, Config
 class A(Adapter):
     name = "maze"
     lean = "maze"
-    serves = {"C04", "C05", "C07", "C08", "C09", "C10", "C11", "C12"}
+    serves = {"C01", "C04", "C05", "C07", "C08", "C09", "C10", "C11", "C12"}
     terminate_on_invalid = False
     max_steps = 60
-    ops = ("state", "step", "judge", "instance")
+    ops = ("state", "step", "judge", "instance", "bounds")
     state_fields = ["agent_position", "target_position", "walls", "action_mask", "step_count"]
 
     def configs(self, tier):
